@@ -806,32 +806,50 @@ def measure_sync_copy(base, cfg, exp):
 
 
 def probe_nsamples(base, cfg, exp):
-    """init_params(nsamples=N) with N shorter than the recording, post_check and delete_original: is the
-    original kept unless every sample is in the shank files?  Implementation only (the model has no
-    'first N samples' file state); reported through the oracle."""
+    """init_params(nsamples=N) with N shorter than the recording (implementation only: the model has no
+    'first N samples' file state).  Clause: after ANY history of calls with nsamples < ns the original still
+    exists unchanged (the shank files cannot hold every sample).  Returns the histories that lost it."""
     from neuropixel import NP2Converter
     kind, fixture, n, w, compressed = CONFIGS[cfg]
-    d = base / cfg / "nsprobe"
-    shutil.copytree(base / cfg / "init", d)
-    out = {}
-    conv = None
-    try:
-        conv = NP2Converter(owner_path(d, 1, 0), post_check=True, delete_original=True, compress=False)
-        conv.init_params(nsamples=NWINDOW, nwindow=NWINDOW)
+    bad = []
+    hists = [[("new", 1, 1, 0), ("process", 0)],
+             [("new", 1, 1, 1), ("process", 0)],
+             [("new", 1, 1, 0), ("process", 0), ("delete",)],
+             [("new", 1, 0, 0), ("process", 0), ("set_delete",), ("delete",), ("process", 1)],
+             [("new", 1, 1, 0), ("process", 0), ("new", 1, 1, 1), ("process", 1)],
+             [("new", 0, 1, 0), ("process", 0), ("check",), ("delete",)]]
+    for j, h in enumerate(hists):
+        d = base / cfg / ("nsprobe%d" % j)
+        shutil.copytree(base / cfg / "init", d)
+        conv = None
+        log = []
         try:
-            out["status"] = int(conv.process())
-        except Exception as e:
-            out["status"] = repr(e)
-        st = st_of(cfg, observe(d.resolve(), n, exp))
-        out["orig"] = st[10]
-        st2 = dict(st)
-        st2[10] = st2[11] = 0
-        out["shanks_complete"] = int(recoverable(cfg, st2))
-    finally:
-        if conv is not None:
-            release(conv)
-        shutil.rmtree(d, ignore_errors=True)
-    return out
+            for op in h:
+                try:
+                    if op[0] == "new":
+                        if conv is not None:
+                            release(conv)
+                        conv = NP2Converter(owner_path(d, 1, 0), post_check=bool(op[1]), delete_original=bool(op[2]),
+                                            compress=bool(op[3]))
+                        conv.init_params(nsamples=NWINDOW, nwindow=NWINDOW)
+                    elif op[0] == "process":
+                        log.append(conv.process(overwrite=bool(op[1])))
+                    elif op[0] == "delete":
+                        conv.delete_NP24()
+                    elif op[0] == "check":
+                        conv.check_NP24()
+                    elif op[0] == "set_delete":
+                        conv.delete_original = True
+                except Exception as e:
+                    log.append(repr(e)[:80])
+            st = st_of(cfg, observe(d.resolve(), n, exp))
+            if st[10] != 2:
+                bad.append({"history": [list(x) for x in h], "returned": [str(x) for x in log], "original_state": st[10]})
+        finally:
+            if conv is not None:
+                release(conv)
+            shutil.rmtree(d, ignore_errors=True)
+    return {"lost": bad, "histories": len(hists)}
 
 
 def name_cases(ctx):
@@ -1472,6 +1490,10 @@ def make_tasks(ctx, base):
         2 if th else 1, 1, extra="_x")
     add("np24s1w3", [], [mkrun(t=-1, post=1, dele=1, comp=1, sub=0b1), mkrun(t=-1, post=1, dele=0, comp=0)],
         "all" if th else 2, fo, extra="_run2")
+    # a complete run, then a plain re-run whose compress option differs: still "nothing done"
+    for cfg in ("np21w2", "np24s1w1"):
+        for c1 in (0, 1):
+            add(cfg, [mkrun(t=-1, post=0, dele=0, comp=c1)], [mkrun(t=-1, post=0, dele=0, comp=1 - c1, ow=0)], "none", 0)
     # file names with a dataset UUID (and "ap" elsewhere in the name): the lf output must not alias the original
     add("np21w2u", [], [mkrun(t=-1, post=0, dele=0, comp=1), mkrun(t=-1, post=0, dele=0, comp=0, ow=1)]
         + ([mkrun(t=-1, post=1, dele=1, comp=1, ow=1), mkrun(t=-1, post=0, dele=0, comp=0)] if th else []),
@@ -1583,12 +1605,15 @@ def run(ctx):
             case = {"cfg": cfg, "runs": [mkrun(post=1, dele=0, comp=1)]}
             if tag == "ok" and val[0] == "ok":
                 ok_cfgs.append(cfg)
-                if len(val) > 3 and val[3] and val[3].get("orig") == 0 and not val[3].get("shanks_complete"):
-                    ctx.fail("init_params(nsamples=%d) on a %d-sample recording with post_check and delete_original: "
-                             "process() returned %s and removed the original although the shank files hold only the "
-                             "first %d samples" % (NWINDOW, NS_OF_W[CONFIGS[cfg][3]], val[3].get("status"), NWINDOW),
-                             {"cfg": cfg, "nsamples": NWINDOW, "runs": [mkrun(post=1, dele=1, comp=0)]},
-                             {"clause": "nsamples_partial_delete", "kind": 0})
+                if len(val) > 3 and val[3]:
+                    ctx.measurements["nsamples_histories_checked"] = val[3]["histories"]
+                    for b in val[3]["lost"]:
+                        ctx.fail("init_params(nsamples=%d) on a %d-sample recording: after this history the original is "
+                                 "gone although the shank files cannot hold every sample (returned %s)"
+                                 % (NWINDOW, NS_OF_W[CONFIGS[cfg][3]], b["returned"]),
+                                 {"cfg": cfg, "nsamples": NWINDOW, "history": b["history"],
+                                  "runs": [mkrun(post=1, dele=1, comp=0)]},
+                                 {"clause": "nsamples_partial_delete", "kind": 0})
                 if len(val) > 4 and val[4] and val[4].get("status") != 1:
                     ctx.fail("an NP2.1 recording named rec.imec0.bin (no 'ap' in the name): a plain first run returns %s "
                              "and writes no lf file: the lf path is the path of the file given (files: %s)"
